@@ -947,7 +947,7 @@ func TestC18(t *testing.T) {
 		"commitDpos at not-due / last-not-due / first-due / due heights) x 12-14 signer combinations, 20 owner/approver methods x 9 combinations, then an epoch change that changes " +
 		"the validator set and the operator table again (with the earlier operator as an extra signer), plus calling-context programs (A->B->C nestings of a scripted contract, " +
 		"real contract as callee). 3/4 of the calls carry real signatures. Distinct = (class, method, signer combination, witnessed, outcome)")
-	rounds := r.N(3, 90)
+	rounds := r.N(3, 300)
 	for round := 0; round < rounds; round++ {
 		rng := r.Rand(fmt.Sprintf("round-%d", round))
 		n := 5 + rng.Intn(4)
